@@ -320,6 +320,14 @@ func c12Judge(r *h.Result, j c12Judged, tier string, confirm bool) {
 		if confirm {
 			if j2 := c12Confirm(cs, tier); j2.cr != nil {
 				cr = j2.cr
+			} else if cr.Class == "oom" {
+				// memory exhaustion of the child (6 GiB address space) with what earlier requests left on the heap: the request
+				// alone stays below the limit. Memory is outside the model (partial): the memory family, like a reproduced one
+				r.Count("crash-not-reproduced-alone")
+				r.Count("outcome:process-crash")
+				r.Violate("C12/memory/"+cs.Endpoint, fmt.Sprintf("%s %s exhausts memory together with what earlier requests of the same child left allocated: %s at %s (address space of the child limited to 6 GiB; alone the request stays below the limit)", cs.Method, c12Short(cs.Path), cr.Panic, cr.Frame),
+					replay(map[string]any{"crash": cr}))
+				return
 			} else {
 				r.Count("crash-not-reproduced-alone")
 				r.Violate("C12/crash/"+cs.Endpoint+"/"+cr.Class+"/delayed", fmt.Sprintf("child process died (%s at %s) while %s %s was in flight; the request alone does not reproduce it (delayed fault of an earlier request's goroutine)", cr.Panic, cr.Frame, cs.Method, cs.Path),
@@ -528,6 +536,10 @@ func c12Replay(r *h.Result, file, tier string) error {
 	j := c12Confirm(cs, tier)
 	r.Case("replay", true)
 	c12Judge(r, j, tier, false)
+	if cs.Stage != nil && cs.Stage.Kind == "stagedrain" && j.o != nil && j.o.StageOut == "blocked" {
+		r.Violate("C12/leak/stage-drain", "the in-process stage stops at the error entry and never reads its input again: the upstream sender stays blocked in its send for ever",
+			map[string]any{"case": cs})
+	}
 	if j.o != nil {
 		r.Sample(map[string]any{"replayed": cs.Method + " " + cs.Path, "outcome": j.o})
 	}
